@@ -1,13 +1,20 @@
+#![feature(allocator_api)]
 use vstd::prelude::*;
+use vstd::iset::*;
 use vstd::arithmetic::power2::*;
+use std::hash::Hash;
 verus! {
 global size_of usize == 8;
-// Unit hll_union (C03, C17): the real functions of hll/union.rs (free kernels, copy_or_downsample, convert_array8_to_type and the
-// HllUnion methods update/update_from_array/update_from_list_or_set/merge_array_into_array_gadget/promote_gadget_and_merge_array/
-// to_sketch/reset) against the view
+// Unit hll_union (C03, C17): the real functions of hll/union.rs (free kernels, copy_or_downsample, convert_array8_to_type, the two coupon
+// merges merge_coupons_into_gadget / merge_coupons_into_mode with HllSketch::update / update_with_coupon, and ALL HllUnion methods)
+// against the view
 //     fold(regs, lg)[i] = max{ regs[j] : j % 2^lg == i },   pmax = register-wise max,
 // with Array4/Array6/Array8 BY CONTRACT over uninterpreted views regs()/lg()/ooo()/hip() (their bodies are verified in the units
 // hll_array4, hll_array6, hll_array8, hll_array8_merge).
+// Coupon sources (List/Set): the REAL Container/List/HashSet structs; coupons() = the non-zero words of the table (ISet view, as in
+// hll_coupons / hll_sketch); `container().iter()` goes through the R16 shim vx_iter_container (non-empty words in table order); the walk
+// is verified against: every source coupon absorbed, nothing absorbed before lost, registers only raised to a coupon's value
+// (coupon_merge), flags untouched.  List::update / HashSet::update / promote_* / grow_set by contract (verified in hll_coupons / hll_sketch).
 // EXPECTED FAILURES on the current /repo (genuine, replayed defects; the clauses are kept on purpose):
 //   /*@C03.flagflow*/      copy_or_downsample: an out-of-order Hll4/Hll6 source (src_lg_k <= tgt_lg_k) is copied through coupons into a
 //                          fresh in-order Array8 whose hip_accum is then set to the source's (0 for an out-of-order source) => estimate 0.
@@ -164,8 +171,6 @@ proof fn lemma_low6(v: u8)
 #[verifier::external_body] struct Array4 { _p: u8 }
 #[verifier::external_body] struct Array6 { _p: u8 }
 #[verifier::external_body] struct Array8 { _p: u8 }
-#[verifier::external_body] struct List { _p: u8 }
-#[verifier::external_body] struct HashSet { _p: u8 }
 
 impl Array4 {
     uninterp spec fn regs(&self) -> Seq<u8>;
@@ -238,6 +243,7 @@ impl Array8 {
       requires old(self).shape(), slot < old(self).regs().len()
       ensures final(self).regs() == old(self).regs().update(slot as int, value), final(self).lg() == old(self).lg(), final(self).ooo() == old(self).ooo(), final(self).hip() == old(self).hip()
     { unimplemented!() }
+    // verified on its real body in unit hll_array8 (same clauses: C03.rebuild.regs, C03.flagflow.merged, C03.rebuild.cache; cache_ok is wf() there)
     #[verifier::external_body] fn rebuild_estimator_from_registers(&mut self)
       requires old(self).shape()
       ensures final(self).regs() == old(self).regs(), final(self).lg() == old(self).lg(), final(self).ooo(), final(self).cache_ok()
@@ -252,8 +258,196 @@ impl Array8 {
       ensures final(self).lg() == old(self).lg(), final(self).regs() == pmax(old(self).regs(), fold(src@, old(self).lg())), final(self).ooo(), final(self).cache_ok()
     { unimplemented!() }
 }
-impl List { uninterp spec fn coupons(&self) -> Set<u32>; }
-impl HashSet { uninterp spec fn coupons(&self) -> Set<u32>; }
+// ================= coupon containers (hll/container.rs, list.rs, hash_set.rs) =================
+// Definitions of units hll_coupons / hll_sketch (where List::update / HashSet::update / the promotions are VERIFIED against exactly
+// these contracts); here the real structs are used so that a walk over `container.coupons` is checked against the coupon-set view.
+const COUPON_EMPTY : u32 = 0 ;
+
+const RESIZE_NUMERATOR : u32 = 3 ;
+
+const RESIZE_DENOMINATOR : u32 = 4 ;
+
+spec fn nz(s: Seq<u32>) -> Seq<u32> decreases s.len() {
+    if s.len() == 0 { Seq::empty() } else if s.last() != 0 { nz(s.drop_last()).push(s.last()) } else { nz(s.drop_last()) }
+}
+spec fn cset(cs: Seq<u32>) -> ISet<u32> { ISet::new(|c: u32| c != 0 && cs.contains(c)) }
+spec fn no_dup(cs: Seq<u32>) -> bool {
+    forall|i: int, j: int| 0 <= i < cs.len() && 0 <= j < cs.len() && i != j && cs[i] != 0 ==> cs[i] != cs[j]
+}
+spec fn packed(cs: Seq<u32>, n: int) -> bool {
+    &&& 0 <= n <= cs.len()
+    &&& forall|i: int| 0 <= i < n ==> cs[i] != 0
+    &&& forall|i: int| n <= i < cs.len() ==> cs[i] == 0
+}
+spec fn probe_at(p0: int, s: int, j: int, size: int) -> int { (p0 + j * s) % size }
+spec fn home(c: u32, lg: usize) -> int { (c as int) % (pow2(lg as nat) as int) }
+spec fn stride_of(c: u32, lg: usize) -> int { (((c & 0x3ffffffu32) >> lg) | 1u32) as int }
+spec fn path(cs: Seq<u32>, c: u32, lg: usize, t: int) -> int { probe_at(home(c, lg), stride_of(c, lg), t, cs.len() as int) }
+spec fn zero_free(cs: Seq<u32>, c: u32, lg: usize, j: int) -> bool {
+    forall|t: int| 0 <= t < j ==> cs[#[trigger] path(cs, c, lg, t)] != 0
+}
+spec fn reach_at(cs: Seq<u32>, lg: usize, i: int) -> bool {
+    exists|j: int| 0 <= j < cs.len() && i == path(cs, cs[i], lg, j) && #[trigger] zero_free(cs, cs[i], lg, j)
+}
+spec fn reach(cs: Seq<u32>, lg: usize) -> bool {
+    forall|i: int| 0 <= i < cs.len() && cs[i] != 0 ==> #[trigger] reach_at(cs, lg, i)
+}
+spec fn tbl_shape(cs: Seq<u32>, lg: usize) -> bool { lg <= 26 && cs.len() == pow2(lg as nat) }
+spec fn tbl_ok(cs: Seq<u32>, lg: usize) -> bool { tbl_shape(cs, lg) && no_dup(cs) && reach(cs, lg) }
+
+// ---- facts about nz / cset (pure sequence lemmas, as in hll_sketch) ----
+proof fn lemma_nz_contains(cs: Seq<u32>, c: u32)
+  requires c != 0
+  ensures nz(cs).contains(c) <==> cs.contains(c)
+  decreases cs.len()
+{
+    if cs.len() > 0 {
+        let d = cs.drop_last(); let n = cs.len() as int;
+        lemma_nz_contains(d, c);
+        if cs.contains(c) {
+            let i = choose|i: int| 0 <= i < cs.len() && cs[i] == c;
+            if i < n - 1 { assert(d[i] == c); assert(d.contains(c)); let k = choose|k: int| 0 <= k < nz(d).len() && nz(d)[k] == c; if cs.last() != 0 { assert(nz(cs)[k] == c); } }
+            else { assert(nz(cs)[nz(cs).len() - 1] == c); }
+        }
+        if nz(cs).contains(c) {
+            let k = choose|k: int| 0 <= k < nz(cs).len() && nz(cs)[k] == c;
+            if cs.last() != 0 && k == nz(cs).len() - 1 { assert(cs[n - 1] == c); }
+            else { assert(nz(d)[k] == c); assert(d.contains(c)); let i = choose|i: int| 0 <= i < d.len() && d[i] == c; assert(cs[i] == c); }
+        }
+    }
+}
+proof fn lemma_nz_nonzero(cs: Seq<u32>, k: int)
+  requires 0 <= k < nz(cs).len()
+  ensures nz(cs)[k] != 0
+  decreases cs.len()
+{
+    if cs.len() > 0 {
+        if cs.last() != 0 && k == nz(cs).len() - 1 { } else { lemma_nz_nonzero(cs.drop_last(), k); }
+    }
+}
+proof fn lemma_nz_len(cs: Seq<u32>)
+  ensures nz(cs).len() <= cs.len()
+  decreases cs.len()
+{
+    if cs.len() > 0 { lemma_nz_len(cs.drop_last()); }
+}
+// the coupons yielded by the iterator are exactly the view of the table
+proof fn lemma_cset_nz(cs: Seq<u32>)
+  ensures cset(nz(cs)) == cset(cs)
+{
+    assert forall|c: u32| cset(nz(cs)).contains(c) <==> #[trigger] cset(cs).contains(c) by { if c != 0 { lemma_nz_contains(cs, c); } }
+    assert(cset(nz(cs)) =~= cset(cs));
+}
+// replaying one more coupon of a sequence
+proof fn lemma_cset_take(s: Seq<u32>, i: int)
+  requires 0 <= i < s.len(), s[i] != 0
+  ensures cset(s.take(i + 1)) == cset(s.take(i)).insert(s[i]), cset(s).contains(s[i])
+{
+    let a = s.take(i); let b = s.take(i + 1);
+    assert forall|c: u32| #[trigger] cset(b).contains(c) <==> cset(a).insert(s[i]).contains(c) by {
+        if cset(a).contains(c) { let k = choose|k: int| 0 <= k < a.len() && a[k] == c; assert(b[k] == c); }
+        if c == s[i] { assert(b[i] == c); }
+        if cset(b).contains(c) { let k = choose|k: int| 0 <= k < b.len() && b[k] == c; if k < i { assert(a[k] == c); } }
+    }
+    assert(cset(b) =~= cset(a).insert(s[i]));
+}
+proof fn lemma_cset_empty(s: Seq<u32>)
+  requires s.len() == 0
+  ensures cset(s) == ISet::<u32>::empty()
+{
+    assert(cset(s) =~= ISet::<u32>::empty());
+}
+proof fn lemma_cset_nonempty(s: Seq<u32>)
+  requires cset(s) != ISet::<u32>::empty()
+  ensures s.len() > 0
+{
+    if s.len() == 0 { lemma_cset_empty(s); }
+}
+
+struct Container {
+lg_size : usize , coupons : Box < [ u32 ] > , len : usize , }
+
+impl Container {
+    spec fn view(&self) -> ISet<u32> { cset(self.coupons@) }
+    spec fn wf_len(&self) -> bool { self.len == nz(self.coupons@).len() }
+
+    fn len ( & self ) -> ( r : usize ) ensures r == self . len {
+self . len }
+
+
+    fn lg_size ( & self ) -> ( r : usize ) ensures r == self . lg_size {
+self . lg_size }
+
+
+    fn is_full ( & self ) -> ( r : bool ) ensures r == ( self . len == self . coupons @ . len ( ) ) {
+self . len == self . coupons . len ( ) }
+
+
+    fn capacity ( & self ) -> ( r : usize ) ensures r == self . coupons @ . len ( ) {
+self . coupons . len ( ) }
+
+}
+
+// R16 shim for `Container::iter` (an `impl Iterator` adapter chain): the non-empty coupons in table order, materialized.
+// Same shim and contract as unit hll_sketch; checked on the REAL Container::iter by the Kani harnesses shim_iter_container_small / _8.
+#[verifier::external_body]
+fn vx_iter_container(c: &Container) -> (r: Vec<u32>)
+  ensures r@ == nz(c.coupons@)
+{ c.coupons.iter().filter(|&&c| c != COUPON_EMPTY).copied().collect() }
+
+struct List {
+container : Container , }
+
+impl List {
+    // the coupon-set view
+    spec fn coupons(&self) -> ISet<u32> { cset(self.container.coupons@) }
+    spec fn wf(&self) -> bool { packed(self.container.coupons@, self.container.len as int) && no_dup(self.container.coupons@) }
+
+    fn container ( & self ) -> ( r : & Container ) ensures r == & self . container {
+& self . container }
+
+
+    // verified in unit hll_coupons (same clauses)
+    #[verifier::external_body]
+    fn update(&mut self, coupon: u32)
+      requires old(self).wf(), coupon != 0,
+        old(self).container.len < old(self).container.coupons@.len(),
+      ensures
+        final(self).wf(), final(self).container.lg_size == old(self).container.lg_size,
+        final(self).coupons() == old(self).coupons().insert(coupon),
+        final(self).container.coupons@ == (if old(self).coupons().contains(coupon) { old(self).container.coupons@ } else { old(self).container.coupons@.update(old(self).container.len as int, coupon) }),
+        final(self).container.len == old(self).container.len + (if old(self).coupons().contains(coupon) { 0int } else { 1int }),
+        final(self).container.wf_len(),
+    { unimplemented!() }
+}
+
+struct HashSet {
+container : Container , }
+
+impl HashSet {
+    // the coupon-set view
+    spec fn coupons(&self) -> ISet<u32> { cset(self.container.coupons@) }
+    spec fn shape(&self) -> bool { tbl_shape(self.container.coupons@, self.container.lg_size) }
+    spec fn has_room(&self) -> bool { nz(self.container.coupons@).len() < self.container.coupons@.len() }
+    spec fn wf(&self) -> bool { tbl_ok(self.container.coupons@, self.container.lg_size) && self.container.wf_len() }
+
+    fn container ( & self ) -> ( r : & Container ) ensures r == & self . container {
+& self . container }
+
+
+    // verified in unit hll_coupons (same clauses)
+    #[verifier::external_body]
+    fn update(&mut self, coupon: u32)
+      requires old(self).shape(), coupon != 0, old(self).container.len < usize::MAX,
+        old(self).has_room(),
+      ensures
+        final(self).shape(), final(self).container.lg_size == old(self).container.lg_size,
+        final(self).coupons() == old(self).coupons().insert(coupon),
+        final(self).container.len <= old(self).container.len + 1,
+        old(self).wf() ==> final(self).wf(),
+        old(self).wf() ==> final(self).container.len == old(self).container.len + (if old(self).coupons().contains(coupon) { 0int } else { 1int }),
+    { unimplemented!() }
+}
 impl Clone for List {
     #[verifier::external_body] fn clone(&self) -> (r: Self) ensures r == *self { unimplemented!() }
 }
@@ -516,11 +710,21 @@ spec fn sk_type(m: &Mode) -> HllType {
     match m { Mode::List { hll_type, .. } => *hll_type, Mode::Set { hll_type, .. } => *hll_type, Mode::Array4(_) => HllType::Hll4, Mode::Array6(_) => HllType::Hll6, Mode::Array8(_) => HllType::Hll8 }
 }
 
-spec fn mode_coupons(m: &Mode) -> Set<u32> { match m { Mode::List { list, .. } => list.coupons(), Mode::Set { set, .. } => set.coupons(), _ => Set::empty() } }
+spec fn mode_coupons(m: &Mode) -> ISet<u32> { match m { Mode::List { list, .. } => list.coupons(), Mode::Set { set, .. } => set.coupons(), _ => ISet::empty() } }
+// the coupon table of a sparse mode (mode_coupons(m) == cset(mode_table(m)))
+spec fn mode_table(m: &Mode) -> Seq<u32> { match m { Mode::List { list, .. } => list.container.coupons@, Mode::Set { set, .. } => set.container.coupons@, _ => Seq::empty() } }
 spec fn mode_empty(m: &Mode) -> bool {
     match m {
-        Mode::List { list, .. } => list.coupons() == Set::<u32>::empty(),
-        Mode::Set { set, .. } => set.coupons() == Set::<u32>::empty(),
+        Mode::List { list, .. } => list.coupons() == ISet::<u32>::empty(),
+        Mode::Set { set, .. } => set.coupons() == ISet::<u32>::empty(),
+        _ => mode_regs(m) == zeros(mode_regs(m).len()),
+    }
+}
+// emptiness as the code decides it: coupon count 0 (sparse modes) / every register zero (arrays)
+spec fn mode_empty_len(m: &Mode) -> bool {
+    match m {
+        Mode::List { list, .. } => list.container.len == 0,
+        Mode::Set { set, .. } => set.container.len == 0,
         _ => mode_regs(m) == zeros(mode_regs(m).len()),
     }
 }
@@ -529,7 +733,7 @@ spec fn absorbed(m: &Mode, lg: u8, c: u32) -> bool {
     if mode_is_array(m) { mode_regs(m)[slot_of(c, lg)] >= cval(c) } else { mode_coupons(m).contains(c) }
 }
 // `new` is `old` after absorbing the coupons S: nothing lost, nothing invented
-spec fn coupon_merge(old: Seq<u8>, s: Set<u32>, lg: u8, new: Seq<u8>) -> bool {
+spec fn coupon_merge(old: Seq<u8>, s: ISet<u32>, lg: u8, new: Seq<u8>) -> bool {
     &&& new.len() == old.len()
     &&& forall|i: int| 0 <= i < old.len() ==> #[trigger] new[i] >= old[i]
     &&& forall|c: u32| s.contains(c) ==> new[slot_of(c, lg)] >= #[trigger] cval(c)
@@ -563,13 +767,239 @@ proof fn lemma_pmax_nonzero(a: Seq<u8>, b: Seq<u8>)
     if nonzero(a) { let j = choose|j: int| 0 <= j < a.len() && #[trigger] a[j] != 0; assert(pmax(a, b)[j] != 0); }
     else { let j = choose|j: int| 0 <= j < b.len() && #[trigger] b[j] != 0; assert(pmax(a, b)[j] != 0); }
 }
-proof fn lemma_coupon_merge_nonzero(old: Seq<u8>, s: Set<u32>, lg: u8, new: Seq<u8>)
+proof fn lemma_coupon_merge_nonzero(old: Seq<u8>, s: ISet<u32>, lg: u8, new: Seq<u8>)
   requires coupon_merge(old, s, lg, new), nonzero(old)
   ensures nonzero(new)
 {
     let j = choose|j: int| 0 <= j < old.len() && #[trigger] old[j] != 0;
     assert(new[j] >= old[j]);
 }
+
+// ================= sparse-mode invariants and the one-coupon step (HllSketch::update_with_coupon) =================
+// every retained coupon carries a register value >= 1 (hll::coupon() produces values 1..=63)
+spec fn vals_ok(s: ISet<u32>) -> bool { forall|c: u32| #[trigger] s.contains(c) ==> cval(c) >= 1 }
+// invariant of the sparse modes (unit hll_sketch: mode_wf), plus vals_ok
+spec fn sparse_wf(m: &Mode, lg: u8) -> bool {
+    match m {
+        // a list has 8 slots and is promoted as soon as it is full
+        Mode::List { list, .. } => list.wf() && list.container.lg_size == 3 && list.container.coupons@.len() == 8 && list.container.len < 8 && vals_ok(list.coupons()),
+        // a set is grown / promoted as soon as its load exceeds 3/4; it never outgrows 2^(lg_k - 3) slots
+        Mode::Set { set, .. } => set.wf() && lg >= 8 && 5 <= set.container.lg_size <= lg - 3 && 4 * set.container.len <= 3 * set.container.coupons@.len() && vals_ok(set.coupons()),
+        _ => true,
+    }
+}
+spec fn mode_wf(m: &Mode, lg: u8) -> bool {
+    match m {
+        Mode::Array4(a) => a.wf() && a.lg() == lg,
+        Mode::Array6(a) => a.wf() && a.lg() == lg,
+        Mode::Array8(a) => a.wf() && a.lg() == lg,
+        _ => sparse_wf(m, lg),
+    }
+}
+spec fn reg_apply(r: Seq<u8>, c: u32, lg: u8) -> Seq<u8> { r.update(slot_of(c, lg), max8(r[slot_of(c, lg)], cval(c))) }
+// the textbook model of a register array (unit hll_sketch): register[slot] = max value over the coupons mapped to slot (0 if none)
+spec fn is_regs_of(r: Seq<u8>, s: ISet<u32>, lg: u8) -> bool {
+    &&& r.len() == pow2(lg as nat)
+    &&& forall|c: u32| s.contains(c) ==> r[#[trigger] slot_of(c, lg)] >= cval(c)
+    &&& forall|i: int| 0 <= i < r.len() && r[i] != 0 ==> exists|c: u32| s.contains(c) && #[trigger] slot_of(c, lg) == i && cval(c) == r[i]
+}
+proof fn lemma_slot_range(c: u32, lg: u8)
+  ensures 0 <= slot_of(c, lg) < pow2(lg as nat)
+{
+    lemma_pow2_pos(lg as nat);
+    vstd::arithmetic::div_mod::lemma_mod_bound(cslot(c) as int, pow2(lg as nat) as int);
+}
+// C02 core step (as in hll_sketch): max-updating the register of c turns the model of S into the model of S + {c}
+proof fn lemma_regs_step(r: Seq<u8>, s: ISet<u32>, c: u32, lg: u8)
+  requires is_regs_of(r, s, lg)
+  ensures is_regs_of(reg_apply(r, c, lg), s.insert(c), lg)
+{
+    let r2 = reg_apply(r, c, lg); let s2 = s.insert(c); let sl = slot_of(c, lg);
+    lemma_slot_range(c, lg);
+    assert forall|x: u32| s2.contains(x) implies r2[#[trigger] slot_of(x, lg)] >= cval(x) by {
+        lemma_slot_range(x, lg);
+        if x != c { assert(s.contains(x)); }
+    }
+    assert forall|i: int| 0 <= i < r2.len() && r2[i] != 0 implies exists|x: u32| s2.contains(x) && #[trigger] slot_of(x, lg) == i && cval(x) == r2[i] by {
+        if i == sl && r2[i] == cval(c) { assert(s2.contains(c) && slot_of(c, lg) == i); }
+        else {
+            assert(r[i] == r2[i]);
+            let x = choose|x: u32| s.contains(x) && #[trigger] slot_of(x, lg) == i && cval(x) == r[i];
+            assert(s2.contains(x) && slot_of(x, lg) == i);
+        }
+    }
+}
+// what one coupon does to a sketch: m1 is m0 after absorbing c
+spec fn coupon_step(m0: &Mode, lg: u8, c: u32, m1: &Mode) -> bool {
+    &&& sk_type(m1) == sk_type(m0)
+    &&& (mode_is_array(m0) ==> mode_is_array(m1) && mode_regs(m1) == reg_apply(mode_regs(m0), c, lg) && mode_ooo(m1) == mode_ooo(m0))
+    &&& (!mode_is_array(m0) && !mode_is_array(m1) ==> mode_coupons(m1) == mode_coupons(m0).insert(c))
+    &&& (!mode_is_array(m0) && mode_is_array(m1) ==> is_regs_of(mode_regs(m1), mode_coupons(m0).insert(c), lg))
+}
+proof fn lemma_step_absorb(m0: &Mode, lg: u8, c: u32, m1: &Mode)
+  requires coupon_step(m0, lg, c, m1), mode_is_array(m0) ==> mode_regs(m0).len() == pow2(lg as nat)
+  ensures absorbed(m1, lg, c), forall|x: u32| absorbed(m0, lg, x) ==> #[trigger] absorbed(m1, lg, x)
+{
+    lemma_slot_range(c, lg);
+    if mode_is_array(m0) {
+        assert forall|x: u32| absorbed(m0, lg, x) implies #[trigger] absorbed(m1, lg, x) by { lemma_slot_range(x, lg); }
+    } else if mode_is_array(m1) {
+        let s = mode_coupons(m0).insert(c);
+        assert(s.contains(c));
+        assert(mode_regs(m1)[slot_of(c, lg)] >= cval(c));
+        assert forall|x: u32| absorbed(m0, lg, x) implies #[trigger] absorbed(m1, lg, x) by {
+            assert(s.contains(x));
+            assert(mode_regs(m1)[slot_of(x, lg)] >= cval(x));
+        }
+    } else {
+        assert(mode_coupons(m1).contains(c));
+    }
+}
+proof fn lemma_coupon_merge_refl(old: Seq<u8>, lg: u8)
+  ensures coupon_merge(old, ISet::<u32>::empty(), lg, old)
+{
+}
+// absorbing one more coupon by a register max keeps "nothing lost, nothing invented"
+proof fn lemma_coupon_merge_step(old: Seq<u8>, s: ISet<u32>, lg: u8, cur: Seq<u8>, c: u32)
+  requires coupon_merge(old, s, lg, cur), old.len() == pow2(lg as nat)
+  ensures coupon_merge(old, s.insert(c), lg, reg_apply(cur, c, lg))
+{
+    let s2 = s.insert(c); let n2 = reg_apply(cur, c, lg); let sl = slot_of(c, lg);
+    lemma_slot_range(c, lg);
+    assert forall|i: int| 0 <= i < old.len() implies #[trigger] n2[i] >= old[i] by { assert(cur[i] >= old[i]); }
+    assert forall|x: u32| s2.contains(x) implies n2[slot_of(x, lg)] >= #[trigger] cval(x) by {
+        lemma_slot_range(x, lg);
+        if x != c { assert(s.contains(x)); assert(cur[slot_of(x, lg)] >= cval(x)); }
+    }
+    assert forall|i: int| 0 <= i < old.len() implies #[trigger] n2[i] == old[i] || exists|x: u32| s2.contains(x) && slot_of(x, lg) == i && #[trigger] cval(x) == n2[i] by {
+        if i == sl && n2[i] != cur[i] {
+            assert(s2.contains(c) && slot_of(c, lg) == i && cval(c) == n2[i]);
+        } else {
+            assert(n2[i] == cur[i]);
+            if cur[i] != old[i] {
+                let x = choose|x: u32| s.contains(x) && slot_of(x, lg) == i && #[trigger] cval(x) == cur[i];
+                assert(s2.contains(x) && slot_of(x, lg) == i && cval(x) == n2[i]);
+            }
+        }
+    }
+}
+// the two whole-view facts the coupon merges promise: m is g0 after absorbing every coupon of s
+spec fn merged_into(g0: &Mode, s: ISet<u32>, lg: u8, m: &Mode) -> bool {
+    &&& forall|c: u32| (absorbed(g0, lg, c) || s.contains(c)) ==> #[trigger] absorbed(m, lg, c)
+    &&& (mode_is_array(g0) ==> mode_is_array(m) && mode_ooo(m) == mode_ooo(g0) && coupon_merge(mode_regs(g0), s, lg, mode_regs(m)))
+    &&& (!mode_is_array(g0) && !mode_is_array(m) ==> mode_coupons(m) == mode_coupons(g0).union(s))
+    &&& (!mode_is_array(g0) && mode_is_array(m) ==> is_regs_of(mode_regs(m), mode_coupons(g0).union(s), lg))
+}
+proof fn lemma_merged_into_init(g0: &Mode, lg: u8)
+  ensures merged_into(g0, ISet::<u32>::empty(), lg, g0)
+{
+    lemma_coupon_merge_refl(mode_regs(g0), lg);
+    assert(mode_coupons(g0).union(ISet::<u32>::empty()) =~= mode_coupons(g0));
+}
+proof fn lemma_merged_into_step(g0: &Mode, s: ISet<u32>, lg: u8, m: &Mode, c: u32, m2: &Mode)
+  requires merged_into(g0, s, lg, m), coupon_step(m, lg, c, m2), mode_is_array(m) ==> mode_regs(m).len() == pow2(lg as nat)
+  ensures merged_into(g0, s.insert(c), lg, m2)
+{
+    lemma_step_absorb(m, lg, c, m2);
+    assert forall|x: u32| (absorbed(g0, lg, x) || s.insert(c).contains(x)) implies #[trigger] absorbed(m2, lg, x) by {
+        if x != c { assert(absorbed(m, lg, x)); }
+    }
+    if mode_is_array(g0) {
+        lemma_coupon_merge_step(mode_regs(g0), s, lg, mode_regs(m), c);
+    } else {
+        let u = mode_coupons(g0).union(s);
+        assert(u.insert(c) =~= mode_coupons(g0).union(s.insert(c)));
+        if mode_is_array(m) { lemma_regs_step(mode_regs(m), u, c, lg); }
+    }
+}
+// a sketch that has absorbed a coupon with a value >= 1 is not empty
+proof fn lemma_absorbed_nonempty(m: &Mode, lg: u8, c: u32)
+  requires absorbed(m, lg, c), cval(c) >= 1, mode_is_array(m) ==> mode_regs(m).len() == pow2(lg as nat)
+  ensures !mode_empty(m)
+{
+    if mode_is_array(m) {
+        lemma_slot_range(c, lg);
+        assert(mode_regs(m)[slot_of(c, lg)] != 0);
+        lemma_nonzero_iff(mode_regs(m));
+    } else {
+        assert(mode_coupons(m).contains(c));
+        assert(!ISet::<u32>::empty().contains(c));
+    }
+}
+
+// for a well-formed sparse mode the coupon count is 0 exactly when no coupon is retained
+proof fn lemma_empty_len(m: &Mode, lg: u8)
+  requires sparse_wf(m, lg)
+  ensures mode_empty_len(m) == mode_empty(m)
+{
+    match m {
+        Mode::List { list, .. } => {
+            let cs = list.container.coupons@;
+            if list.container.len == 0 { assert(cset(cs) =~= ISet::<u32>::empty()); }
+            else { assert(cs[0] != 0 && cs.contains(cs[0])); assert(cset(cs).contains(cs[0])); assert(!ISet::<u32>::empty().contains(cs[0])); }
+        }
+        Mode::Set { set, .. } => {
+            let cs = set.container.coupons@;
+            lemma_cset_nz(cs);
+            if set.container.len == 0 { lemma_cset_empty(nz(cs)); }
+            else { lemma_nz_nonzero(cs, 0); assert(nz(cs).contains(nz(cs)[0])); assert(cset(nz(cs)).contains(nz(cs)[0])); assert(!ISet::<u32>::empty().contains(nz(cs)[0])); }
+        }
+        _ => {}
+    }
+}
+
+// hll/mod.rs `coupon`: by contract (verified in unit hll_coupons, C16): the coupon is a function of the item's murmur digest
+spec fn cpack(slot: u32, value: u8) -> u32 { (((value & 0x3f) as u32) << 26) | (slot & 0x3ffffff) }
+spec fn clz64(x: u64) -> int { vstd::std_specs::bits::u64_leading_zeros(x) as int }
+spec fn min_int(a: int, b: int) -> int { if a <= b { a } else { b } }
+spec fn coupon_of(lo: u64, hi: u64) -> u32 { cpack((lo & 0x3ffffff) as u32, (min_int(clz64(hi), 62) + 1) as u8) }
+uninterp spec fn murmur128<H>(v: H) -> (u64, u64);
+#[verifier::external_body]
+fn coupon<H: Hash>(v: H) -> (r: u32)
+  ensures r == coupon_of(murmur128(v).0, murmur128(v).1), r != 0
+{ unimplemented!() }
+proof fn lemma_coupon_val(lo: u64, hi: u64)
+  ensures 1 <= cval(coupon_of(lo, hi)) <= 63
+{
+    let v = (min_int(clz64(hi), 62) + 1) as u8; let sl = (lo & 0x3ffffff) as u32;
+    assert(1 <= v <= 63);
+    assert(1 <= v <= 63 ==> ((((((v & 0x3fu8) as u32) << 26u32) | (sl & 0x3ffffffu32)) >> 26u32) as u8) == v) by (bit_vector);
+}
+
+// hll/sketch.rs promotions: by contract (verified in unit hll_sketch, same clauses: C02.promote.*)
+#[verifier::external_body]
+fn promote_container_to_set(container: &Container, hll_type: HllType) -> (r: Mode)
+  requires nz(container.coupons@).len() <= 24
+  ensures (r matches Mode::Set { set, hll_type: h } && h == hll_type && set.wf() && set.container.lg_size == 5 && set.container.coupons@.len() == 32
+    && set.coupons() == container@ && set.container.len <= nz(container.coupons@).len()),
+{ unimplemented!() }
+#[verifier::external_body]
+fn grow_set(old_set: &HashSet, hll_type: HllType) -> (r: Mode)
+  requires old_set.shape(), old_set.container.lg_size < 26
+  ensures (r matches Mode::Set { set, hll_type: h } && h == hll_type && set.wf() && set.container.lg_size == old_set.container.lg_size + 1
+    && set.container.coupons@.len() == 2 * old_set.container.coupons@.len() && set.coupons() == old_set.coupons()
+    && set.container.len <= nz(old_set.container.coupons@).len() && (old_set.wf() ==> set.container.len == old_set.container.len)),
+{ unimplemented!() }
+#[verifier::external_body]
+fn promote_container_to_array(container: &Container, hll_type: HllType, lg_config_k: u8) -> (r: Mode)
+  requires 4 <= lg_config_k <= 21
+  ensures sk_type(&r) == hll_type, mode_is_array(&r), mode_wf(&r, lg_config_k), is_regs_of(mode_regs(&r), container@, lg_config_k),
+{ unimplemented!() }
+proof fn lemma_pow2_ge32(n: nat)
+  requires 5 <= n <= 26
+  ensures 32 <= pow2(n) <= 0x4000000
+{
+    lemma2_to64();
+    if n > 5 { lemma_pow2_strictly_increases(5, n); }
+    if n < 26 { lemma_pow2_strictly_increases(n, 26); }
+}
+
+// float leaves of HllSketch (verified dispatch in unit hll_api, C01): uninterpreted here
+uninterp spec fn mode_est(m: &Mode) -> f64;
+uninterp spec fn mode_ub(m: &Mode, s: NumStdDev) -> f64;
+uninterp spec fn mode_lb(m: &Mode, s: NumStdDev) -> f64;
+enum NumStdDev {
+One = 1 , Two = 2 , Three = 3 , }
 
 struct HllSketch {
 lg_config_k : u8 , mode : Mode , }
@@ -603,16 +1033,81 @@ hll_type , .. }
 self . lg_config_k }
 
 
-    // empty = no coupon retained / every register zero
+    fn update < T : Hash > ( & mut self , value : T )
+      requires 4 <= old ( self ) . lg_config_k <= 21 , mode_wf ( & old ( self ) . mode , old ( self ) . lg_config_k )
+      ensures final ( self ) . lg_config_k == old ( self ) . lg_config_k ,
+        /*@C03.coupon.wf*/ mode_wf ( & final ( self ) . mode , final ( self ) . lg_config_k ) ,
+        /*@C03.coupon.step*/ coupon_step ( & old ( self ) . mode , old ( self ) . lg_config_k , coupon_of ( murmur128 ( value ) . 0 , murmur128 ( value ) . 1 ) , & final ( self ) . mode ) ,
+    {
+        proof { lemma_coupon_val ( murmur128 ( value ) . 0 , murmur128 ( value ) . 1 ) ; }
+        let coupon = coupon ( value ) ;
+        self . update_with_coupon ( coupon ) ;
+    }
+
+    fn update_with_coupon ( & mut self , coupon : u32 )
+      requires 4 <= old ( self ) . lg_config_k <= 21 , mode_wf ( & old ( self ) . mode , old ( self ) . lg_config_k ) , coupon != 0 , cval ( coupon ) >= 1
+      ensures final ( self ) . lg_config_k == old ( self ) . lg_config_k ,
+        /*@C03.coupon.wf*/ mode_wf ( & final ( self ) . mode , final ( self ) . lg_config_k ) ,
+        /*@C03.coupon.type*/ sk_type ( & final ( self ) . mode ) == sk_type ( & old ( self ) . mode ) ,
+        /*@C03.coupon.array*/ mode_is_array ( & old ( self ) . mode ) ==> mode_is_array ( & final ( self ) . mode ) && mode_regs ( & final ( self ) . mode ) == reg_apply ( mode_regs ( & old ( self ) . mode ) , coupon , old ( self ) . lg_config_k ) && mode_ooo ( & final ( self ) . mode ) == mode_ooo ( & old ( self ) . mode ) ,
+        /*@C03.coupon.sparse*/ ! mode_is_array ( & old ( self ) . mode ) && ! mode_is_array ( & final ( self ) . mode ) ==> mode_coupons ( & final ( self ) . mode ) == mode_coupons ( & old ( self ) . mode ) . insert ( coupon ) ,
+        /*@C03.coupon.promote*/ ! mode_is_array ( & old ( self ) . mode ) && mode_is_array ( & final ( self ) . mode ) ==> is_regs_of ( mode_regs ( & final ( self ) . mode ) , mode_coupons ( & old ( self ) . mode ) . insert ( coupon ) , old ( self ) . lg_config_k ) ,
+    {
+        proof { lemma2_to64 ( ) ; }
+        match & mut self . mode {
+            Mode :: List { list , hll_type } => {
+                list . update ( coupon ) ;
+                let should_promote = list . container ( ) . is_full ( ) ;
+                if should_promote {
+                    self . mode = if self . lg_config_k < 8 {
+                        promote_container_to_array ( list . container ( ) , * hll_type , self . lg_config_k )
+                    } else {
+                        promote_container_to_set ( list . container ( ) , * hll_type )
+                    }
+                }
+            }
+            Mode :: Set { set , hll_type } => {
+                proof {
+                    lemma_nz_len ( set . container . coupons @ ) ;
+                    lemma_pow2_ge32 ( set . container . lg_size as nat ) ;
+                }
+                set . update ( coupon ) ;
+                let should_promote = RESIZE_DENOMINATOR as usize * set . container ( ) . len ( ) > RESIZE_NUMERATOR as usize * set . container ( ) . capacity ( ) ;
+                if should_promote {
+                    self . mode = if set . container ( ) . lg_size ( ) == self . lg_config_k as usize - 3 {
+                        promote_container_to_array ( set . container ( ) , * hll_type , self . lg_config_k )
+                    } else {
+                        grow_set ( set , * hll_type )
+                    }
+                }
+            }
+            Mode :: Array4 ( arr ) => arr . update ( coupon ) ,
+            Mode :: Array6 ( arr ) => arr . update ( coupon ) ,
+            Mode :: Array8 ( arr ) => arr . update ( coupon ) ,
+        }
+    }
+
+    // float leaves (dispatch verified in unit hll_api): uninterpreted results
+    #[verifier::external_body]
+    fn estimate(&self) -> (r: f64) ensures r == mode_est(&self.mode) { unimplemented!() }
+    #[verifier::external_body]
+    fn upper_bound(&self, num_std_dev: NumStdDev) -> (r: f64) ensures r == mode_ub(&self.mode, num_std_dev) { unimplemented!() }
+    #[verifier::external_body]
+    fn lower_bound(&self, num_std_dev: NumStdDev) -> (r: f64) ensures r == mode_lb(&self.mode, num_std_dev) { unimplemented!() }
+
+    // verified in unit hll_api (C02.is_empty): sparse modes answer from the coupon COUNT, arrays from their registers;
+    // lemma_empty_len turns the count into "no coupon retained" for a well-formed sparse mode
     #[verifier::external_body]
     fn is_empty(&self) -> (r: bool)
-      ensures r == mode_empty(&self.mode)
+      requires 4 <= self.lg_config_k <= 21, mode_is_array(&self.mode) ==> mode_lg(&self.mode) == self.lg_config_k
+      ensures r == mode_empty_len(&self.mode)
     { unimplemented!() }
 
     #[verifier::external_body]
     fn new(lg_config_k: u8, hll_type: HllType) -> (r: Self)
       requires 4 <= lg_config_k <= 21
-      ensures r.lg_config_k == lg_config_k, r.mode is List, sk_type(&r.mode) == hll_type, mode_empty(&r.mode)
+      ensures r.lg_config_k == lg_config_k, r.mode is List, sk_type(&r.mode) == hll_type, mode_empty(&r.mode),
+        sparse_wf(&r.mode, lg_config_k),   // unit hll_sketch: /*C02.sketch_init*/ r.wf() && r.models(empty)
     { unimplemented!() }
 }
 impl Clone for HllSketch {
@@ -695,40 +1190,155 @@ HllSketch :: from_mode ( lg_config_k , Mode :: Array4 ( array4 ) ) }
 struct HllUnion {
 lg_max_k : u8 , gadget : HllSketch , }
 
-// the gadget is always a Hll8 sketch: List/Set with target Hll8, or Array8 (never Array4/Array6)
+// the gadget is always a well-formed Hll8 sketch: List/Set with target Hll8, or Array8 (never Array4/Array6)
 spec fn g_ok(m: &Mode, lg: u8) -> bool {
-    match m {
-        Mode::List { hll_type, .. } => *hll_type == HllType::Hll8,
-        Mode::Set { hll_type, .. } => *hll_type == HllType::Hll8,
-        Mode::Array8(a) => a.wf() && a.lg() == lg,
-        _ => false,
-    }
+    sk_type(m) == HllType::Hll8 && mode_wf(m, lg)
 }
 // an input sketch
 spec fn sk_wf(s: &HllSketch) -> bool {
-    4 <= s.lg_config_k <= 21 && (mode_is_array(&s.mode) ==> mode_awf(&s.mode) && mode_lg(&s.mode) == s.lg_config_k)
+    4 <= s.lg_config_k <= 21 && (mode_is_array(&s.mode) ==> mode_awf(&s.mode) && mode_lg(&s.mode) == s.lg_config_k) && sparse_wf(&s.mode, s.lg_config_k)
 }
 
-// opaque: iterate the coupons of a List/Set source into the gadget (container iterators; HllSketch::update_with_coupon does the promotions)
-#[verifier::external_body]
+// iterate the coupons of a List/Set source into the gadget (HllSketch::update_with_coupon does the promotions)
 fn merge_coupons_into_gadget(gadget: &mut HllSketch, src_mode: &Mode)
-  requires !mode_is_array(src_mode), 4 <= old(gadget).lg_config_k <= 21, g_ok(&old(gadget).mode, old(gadget).lg_config_k)
+  requires !mode_is_array(src_mode), vals_ok(mode_coupons(src_mode)), 4 <= old(gadget).lg_config_k <= 21, g_ok(&old(gadget).mode, old(gadget).lg_config_k)
   ensures final(gadget).lg_config_k == old(gadget).lg_config_k, g_ok(&final(gadget).mode, final(gadget).lg_config_k),
-    forall|c: u32| (absorbed(&old(gadget).mode, old(gadget).lg_config_k, c) || mode_coupons(src_mode).contains(c)) ==> #[trigger] absorbed(&final(gadget).mode, old(gadget).lg_config_k, c),
-    mode_is_array(&old(gadget).mode) ==> mode_is_array(&final(gadget).mode) && mode_ooo(&final(gadget).mode) == mode_ooo(&old(gadget).mode)
+    /*@C03.coupons.absorbed*/ forall|c: u32| (absorbed(&old(gadget).mode, old(gadget).lg_config_k, c) || mode_coupons(src_mode).contains(c)) ==> #[trigger] absorbed(&final(gadget).mode, old(gadget).lg_config_k, c),
+    /*@C03.coupons.regs*/ mode_is_array(&old(gadget).mode) ==> mode_is_array(&final(gadget).mode) && mode_ooo(&final(gadget).mode) == mode_ooo(&old(gadget).mode)
         && coupon_merge(mode_regs(&old(gadget).mode), mode_coupons(src_mode), old(gadget).lg_config_k, mode_regs(&final(gadget).mode)),
-    !mode_empty(src_mode) ==> !mode_empty(&final(gadget).mode),
-{ unimplemented!() }
+    /*@C03.coupons.union*/ !mode_is_array(&old(gadget).mode) && !mode_is_array(&final(gadget).mode) ==> mode_coupons(&final(gadget).mode) == mode_coupons(&old(gadget).mode).union(mode_coupons(src_mode)),
+    /*@C03.coupons.promoted*/ !mode_is_array(&old(gadget).mode) && mode_is_array(&final(gadget).mode) ==> is_regs_of(mode_regs(&final(gadget).mode), mode_coupons(&old(gadget).mode).union(mode_coupons(src_mode)), old(gadget).lg_config_k),
+    /*@C03.update.nonempty*/ !mode_empty(src_mode) ==> !mode_empty(&final(gadget).mode),
+{
+    proof { lemma_merged_into_init(&gadget.mode, gadget.lg_config_k); }
+    match src_mode {
+        Mode::List { list, .. } => {
+            let vx_s1 = vx_iter_container(list.container());
+            let mut vx_i1 = 0;
+            proof { lemma_cset_empty(vx_s1@.take(0)); lemma_cset_nz(mode_table(src_mode)); }
+            while vx_i1 < vx_s1.len()
+              invariant vx_s1@ == nz(mode_table(src_mode)), vx_i1 <= vx_s1@.len(), vals_ok(cset(vx_s1@)),
+                gadget.lg_config_k == old(gadget).lg_config_k, 4 <= gadget.lg_config_k <= 21, g_ok(&gadget.mode, gadget.lg_config_k),
+                /*@C03.coupons.absorbed*/ merged_into(&old(gadget).mode, cset(vx_s1@.take(vx_i1 as int)), gadget.lg_config_k, &gadget.mode),
+              decreases vx_s1@.len() - vx_i1
+            {
+                proof {
+                    lemma_nz_nonzero(mode_table(src_mode), vx_i1 as int);
+                    lemma_cset_take(vx_s1@, vx_i1 as int);
+                }
+                let ghost m = gadget.mode;
+                let coupon = vx_s1[vx_i1];
+                gadget.update_with_coupon(coupon);
+                proof { lemma_merged_into_step(&old(gadget).mode, cset(vx_s1@.take(vx_i1 as int)), gadget.lg_config_k, &m, coupon, &gadget.mode); }
+                vx_i1 += 1;
+            }
+            proof {
+                assert(vx_s1@.take(vx_i1 as int) =~= vx_s1@);
+                if !mode_empty(src_mode) {
+                    lemma_cset_nonempty(vx_s1@);
+                    lemma_nz_nonzero(mode_table(src_mode), 0);
+                    assert(vx_s1@.contains(vx_s1@[0])); assert(cset(vx_s1@).contains(vx_s1@[0]));
+                    lemma_absorbed_nonempty(&gadget.mode, gadget.lg_config_k, vx_s1@[0]);
+                }
+            }
+        }
+        Mode::Set { set, .. } => {
+            let vx_s2 = vx_iter_container(set.container());
+            let mut vx_i2 = 0;
+            proof { lemma_cset_empty(vx_s2@.take(0)); lemma_cset_nz(mode_table(src_mode)); }
+            while vx_i2 < vx_s2.len()
+              invariant vx_s2@ == nz(mode_table(src_mode)), vx_i2 <= vx_s2@.len(), vals_ok(cset(vx_s2@)),
+                gadget.lg_config_k == old(gadget).lg_config_k, 4 <= gadget.lg_config_k <= 21, g_ok(&gadget.mode, gadget.lg_config_k),
+                /*@C03.coupons.absorbed*/ merged_into(&old(gadget).mode, cset(vx_s2@.take(vx_i2 as int)), gadget.lg_config_k, &gadget.mode),
+              decreases vx_s2@.len() - vx_i2
+            {
+                proof {
+                    lemma_nz_nonzero(mode_table(src_mode), vx_i2 as int);
+                    lemma_cset_take(vx_s2@, vx_i2 as int);
+                }
+                let ghost m = gadget.mode;
+                let coupon = vx_s2[vx_i2];
+                gadget.update_with_coupon(coupon);
+                proof { lemma_merged_into_step(&old(gadget).mode, cset(vx_s2@.take(vx_i2 as int)), gadget.lg_config_k, &m, coupon, &gadget.mode); }
+                vx_i2 += 1;
+            }
+            proof {
+                assert(vx_s2@.take(vx_i2 as int) =~= vx_s2@);
+                if !mode_empty(src_mode) {
+                    lemma_cset_nonempty(vx_s2@);
+                    lemma_nz_nonzero(mode_table(src_mode), 0);
+                    assert(vx_s2@.contains(vx_s2@[0])); assert(cset(vx_s2@).contains(vx_s2@[0]));
+                    lemma_absorbed_nonempty(&gadget.mode, gadget.lg_config_k, vx_s2@[0]);
+                }
+            }
+        }
+        Mode::Array4(_) | Mode::Array6(_) | Mode::Array8(_) => {
+            unreachable!();
+        }
+    }
+}
 
-// opaque: iterate the coupons of a List/Set gadget into the freshly copied Array8
-#[verifier::external_body]
+// iterate the coupons of a List/Set gadget into the freshly copied Array8
 fn merge_coupons_into_mode(dst: &mut Array8, src_mode: &Mode)
   requires !mode_is_array(src_mode), old(dst).wf()
   ensures final(dst).wf(), final(dst).lg() == old(dst).lg(), final(dst).ooo() == old(dst).ooo(),
-    coupon_merge(old(dst).regs(), mode_coupons(src_mode), old(dst).lg(), final(dst).regs()),
-{ unimplemented!() }
+    /*@C03.coupons.regs*/ coupon_merge(old(dst).regs(), mode_coupons(src_mode), old(dst).lg(), final(dst).regs()),
+{
+    proof { lemma_coupon_merge_refl(dst.regs(), dst.lg()); }
+    match src_mode {
+        Mode::List { list, .. } => {
+            let vx_s1 = vx_iter_container(list.container());
+            let mut vx_i1 = 0;
+            proof { lemma_cset_empty(vx_s1@.take(0)); }
+            while vx_i1 < vx_s1.len()
+              invariant vx_s1@ == nz(mode_table(src_mode)), vx_i1 <= vx_s1@.len(), dst.wf(), dst.lg() == old(dst).lg(), dst.ooo() == old(dst).ooo(),
+                /*@C03.coupons.regs*/ coupon_merge(old(dst).regs(), cset(vx_s1@.take(vx_i1 as int)), dst.lg(), dst.regs()),
+              decreases vx_s1@.len() - vx_i1
+            {
+                let coupon = vx_s1[vx_i1];
+                proof {
+                    lemma_coupon_merge_step(old(dst).regs(), cset(vx_s1@.take(vx_i1 as int)), dst.lg(), dst.regs(), coupon);
+                    lemma_nz_nonzero(mode_table(src_mode), vx_i1 as int);
+                    lemma_cset_take(vx_s1@, vx_i1 as int);
+                }
+                dst.update(coupon);
+                vx_i1 += 1;
+            }
+            proof {
+                assert(vx_s1@.take(vx_i1 as int) =~= vx_s1@);
+                lemma_cset_nz(mode_table(src_mode));
+            }
+        }
+        Mode::Set { set, .. } => {
+            let vx_s2 = vx_iter_container(set.container());
+            let mut vx_i2 = 0;
+            proof { lemma_cset_empty(vx_s2@.take(0)); }
+            while vx_i2 < vx_s2.len()
+              invariant vx_s2@ == nz(mode_table(src_mode)), vx_i2 <= vx_s2@.len(), dst.wf(), dst.lg() == old(dst).lg(), dst.ooo() == old(dst).ooo(),
+                /*@C03.coupons.regs*/ coupon_merge(old(dst).regs(), cset(vx_s2@.take(vx_i2 as int)), dst.lg(), dst.regs()),
+              decreases vx_s2@.len() - vx_i2
+            {
+                let coupon = vx_s2[vx_i2];
+                proof {
+                    lemma_coupon_merge_step(old(dst).regs(), cset(vx_s2@.take(vx_i2 as int)), dst.lg(), dst.regs(), coupon);
+                    lemma_nz_nonzero(mode_table(src_mode), vx_i2 as int);
+                    lemma_cset_take(vx_s2@, vx_i2 as int);
+                }
+                dst.update(coupon);
+                vx_i2 += 1;
+            }
+            proof {
+                assert(vx_s2@.take(vx_i2 as int) =~= vx_s2@);
+                lemma_cset_nz(mode_table(src_mode));
+            }
+        }
+        Mode::Array4(_) | Mode::Array6(_) | Mode::Array8(_) => {
+            unreachable!();
+        }
+    }
+}
 
-fn convert_coupon_mode_to_hll8 ( src_mode : & Mode , src_lg_k : u8 ) -> ( r : HllSketch ) requires ! mode_is_array ( src_mode ) ensures r . lg_config_k == src_lg_k , ! mode_is_array ( & r . mode ) , sk_type ( & r . mode ) == HllType :: Hll8 ,
+fn convert_coupon_mode_to_hll8 ( src_mode : & Mode , src_lg_k : u8 ) -> ( r : HllSketch ) requires ! mode_is_array ( src_mode ) ensures r . lg_config_k == src_lg_k , ! mode_is_array ( & r . mode ) , sk_type ( & r . mode ) == HllType :: Hll8 , sparse_wf ( src_mode , src_lg_k ) ==> sparse_wf ( & r . mode , src_lg_k ) ,
 /*@C03.sparse.copy*/ mode_coupons ( & r . mode ) == mode_coupons ( src_mode ) , ( r . mode is List ) == ( src_mode is List ) , {
 match src_mode {
 Mode :: List {
@@ -763,6 +1373,9 @@ impl HllUnion {
 /*@C03.flagflow.merged*/ ! mode_empty ( & sketch . mode ) && mode_is_array ( & sketch . mode ) ==> ( ( ! mode_empty ( & old ( self ) . gadget . mode ) && old ( self ) . gadget . mode is Array8 ) || mode_lg ( & sketch . mode ) > old ( self ) . lg_max_k ==> mode_ooo ( & final ( self ) . gadget . mode ) ) ,
 /*@C03.update.sparse*/ ! mode_empty ( & sketch . mode ) && ! mode_is_array ( & sketch . mode ) ==> sparse_update_post ( old ( self ) , sketch , final ( self ) ) ,
 /*@C03.update.nonempty*/ ! mode_empty ( & sketch . mode ) ==> ! mode_empty ( & final ( self ) . gadget . mode ) , {
+proof {
+lemma_empty_len ( & sketch . mode , sketch . lg_config_k ) ;
+}
 if sketch . is_empty ( ) {
 return ;
 }
@@ -787,6 +1400,9 @@ self . update_from_array ( src_mode , src_lg_k , dst_lg_k ) ;
     fn update_from_list_or_set ( & mut self , sketch : & HllSketch , src_mode : & Mode , src_lg_k : u8 , dst_lg_k : u8 , ) requires old ( self ) . uwf ( ) , sk_wf ( sketch ) , * src_mode == sketch . mode , ! mode_is_array ( src_mode ) , src_lg_k == sketch . lg_config_k , dst_lg_k == old ( self ) . gadget . lg_config_k ensures final ( self ) . uwf ( ) , final ( self ) . lg_max_k == old ( self ) . lg_max_k ,
 /*@C03.update.sparse*/ sparse_update_post ( old ( self ) , sketch , final ( self ) ) ,
 /*@C03.update.nonempty*/ ! mode_empty ( src_mode ) ==> ! mode_empty ( & final ( self ) . gadget . mode ) , {
+proof {
+lemma_empty_len ( & self . gadget . mode , self . gadget . lg_config_k ) ;
+}
 if self . gadget . is_empty ( ) && src_lg_k == dst_lg_k {
 self . gadget = if sketch . target_type ( ) == HllType :: Hll8 {
 sketch . clone ( ) }
@@ -808,6 +1424,9 @@ merge_coupons_into_gadget ( & mut self . gadget , src_mode ) ;
 /*@C03.flagflow.update*/ mode_ooo ( src_mode ) ==> mode_ooo ( & final ( self ) . gadget . mode ) ,
 /*@C03.flagflow.merged*/ ( ! mode_empty ( & old ( self ) . gadget . mode ) && old ( self ) . gadget . mode is Array8 ) || mode_lg ( src_mode ) > old ( self ) . lg_max_k ==> mode_ooo ( & final ( self ) . gadget . mode ) ,
 /*@C03.update.nonempty*/ ! mode_empty ( src_mode ) ==> ! mode_empty ( & final ( self ) . gadget . mode ) , {
+proof {
+lemma_empty_len ( & self . gadget . mode , self . gadget . lg_config_k ) ;
+}
 if self . gadget . is_empty ( ) {
 let new_array = copy_or_downsample ( src_mode , src_lg_k , self . lg_max_k ) ;
 proof {
@@ -941,6 +1560,50 @@ lg_max_k , gadget }
 }
 
 
+    fn update_value < T : Hash > ( & mut self , value : T ) requires old ( self ) . uwf ( ) ensures final ( self ) . uwf ( ) , final ( self ) . lg_max_k == old ( self ) . lg_max_k , final ( self ) . gadget . lg_config_k == old ( self ) . gadget . lg_config_k ,
+/*@C03.update_value.step*/ coupon_step ( & old ( self ) . gadget . mode , old ( self ) . gadget . lg_config_k , coupon_of ( murmur128 ( value ) . 0 , murmur128 ( value ) . 1 ) , & final ( self ) . gadget . mode ) ,
+/*@C03.update_value.nonempty*/ ! mode_empty ( & final ( self ) . gadget . mode ) , {
+self . gadget . update ( value ) ;
+proof {
+lemma_coupon_val ( murmur128 ( value ) . 0 , murmur128 ( value ) . 1 ) ;
+lemma_k ( self . gadget . lg_config_k ) ;
+lemma_step_absorb ( & old ( self ) . gadget . mode , self . gadget . lg_config_k , coupon_of ( murmur128 ( value ) . 0 , murmur128 ( value ) . 1 ) , & self . gadget . mode ) ;
+lemma_absorbed_nonempty ( & self . gadget . mode , self . gadget . lg_config_k , coupon_of ( murmur128 ( value ) . 0 , murmur128 ( value ) . 1 ) ) ;
+}
+}
+
+
+    fn lg_config_k ( & self ) -> ( r : u8 ) ensures r == self . gadget . lg_config_k {
+self . gadget . lg_config_k ( ) }
+
+
+    fn lg_max_k ( & self ) -> ( r : u8 ) ensures r == self . lg_max_k {
+self . lg_max_k }
+
+
+    fn is_empty ( & self ) -> ( r : bool ) requires self . uwf ( ) ensures
+/*@C03.is_empty*/ r == mode_empty ( & self . gadget . mode ) {
+proof {
+lemma_empty_len ( & self . gadget . mode , self . gadget . lg_config_k ) ;
+}
+self . gadget . is_empty ( ) }
+
+
+    fn estimate ( & self ) -> ( r : f64 ) ensures
+/*@C03.estimate.delegates*/ r == mode_est ( & self . gadget . mode ) {
+self . gadget . estimate ( ) }
+
+
+    fn upper_bound ( & self , num_std_dev : NumStdDev ) -> ( r : f64 ) ensures
+/*@C03.bounds.delegate*/ r == mode_ub ( & self . gadget . mode , num_std_dev ) {
+self . gadget . upper_bound ( num_std_dev ) }
+
+
+    fn lower_bound ( & self , num_std_dev : NumStdDev ) -> ( r : f64 ) ensures
+/*@C03.bounds.delegate*/ r == mode_lb ( & self . gadget . mode , num_std_dev ) {
+self . gadget . lower_bound ( num_std_dev ) }
+
+
     fn reset ( & mut self ) requires 4 <= old ( self ) . lg_max_k <= 21 ensures final ( self ) . uwf ( ) , final ( self ) . lg_max_k == old ( self ) . lg_max_k ,
 /*@C03.reset*/ mode_empty ( & final ( self ) . gadget . mode ) && final ( self ) . gadget . lg_config_k == final ( self ) . lg_max_k , {
 self . gadget = HllSketch :: new ( self . lg_max_k , HllType :: Hll8 ) ;
@@ -960,6 +1623,9 @@ spec fn sparse_update_post(u0: &HllUnion, s: &HllSketch, u1: &HllUnion) -> bool 
     &&& (fast ==> !mode_is_array(g1) && mode_coupons(g1) == mode_coupons(&s.mode))
     &&& (!fast ==> forall|c: u32| (absorbed(g0, lg, c) || mode_coupons(&s.mode).contains(c)) ==> #[trigger] absorbed(g1, lg, c))
     &&& (!fast && mode_is_array(g0) ==> mode_is_array(g1) && mode_ooo(g1) == mode_ooo(g0) && coupon_merge(mode_regs(g0), mode_coupons(&s.mode), lg, mode_regs(g1)))
+    // a sparse gadget holds exactly the union of the two coupon sets, or (once promoted) exactly the registers of that union
+    &&& (!fast && !mode_is_array(g0) && !mode_is_array(g1) ==> mode_coupons(g1) == mode_coupons(g0).union(mode_coupons(&s.mode)))
+    &&& (!fast && !mode_is_array(g0) && mode_is_array(g1) ==> is_regs_of(mode_regs(g1), mode_coupons(g0).union(mode_coupons(&s.mode)), lg))
 }
 
 }
